@@ -136,3 +136,55 @@ def SeqInst.suffPenaltyPinned (I : SeqInst) : Rat :=
   (I.L : Rat) * (I.V : Rat) * sumList (I.g.arcs.map fun e => absR e.2.cost)
 
 end Vrp
+
+namespace Vrp
+
+/-- lexicographic order on `(vehicle, position, node)` -/
+def stupLe (a b : STup) : Bool :=
+  a.1 < b.1 || (a.1 == b.1 && (a.2.1 < b.2.1 || (a.2.1 == b.2.1 && a.2.2 ≤ b.2.2)))
+
+def insertS (x : STup) : List STup → List STup
+  | [] => [x]
+  | y :: ys => if stupLe x y then x :: y :: ys else y :: insertS x ys
+def sortS (l : List STup) : List STup := l.foldr insertS []
+
+/-- selected free variables of `x` -/
+def SeqInst.selected (I : SeqInst) (x : List Rat) : List STup :=
+  ((List.range x.length).zip x).filterMap fun (k, v) => if v = 0 then none else I.varTuple k
+
+/-- tuples fixed to 1 (start and end at the depot), for every vehicle -/
+def SeqInst.fixedOnes (I : SeqInst) : List STup :=
+  (List.range I.L).flatMap fun p => (List.range I.g.nodes.length).flatMap fun n =>
+    if I.fixed p n = some 1 then (List.range I.V).map fun v => (v, p, n) else []
+
+/-- inner loop of `get_routes` for one vehicle: pops one tuple per position -/
+def decodeVehicle (g : Graph) (v : Nat) : Nat → Nat → List STup → Option Nat → List Nat → Option (List STup × List Nat)
+  | 0, _, ts, _, acc => some (ts, acc)
+  | k + 1, p, ts, prev, acc =>
+    match ts with
+    | [] => none                                   -- `pop(0)` from an empty list: IndexError
+    | t :: rest =>
+      if t.1 ≠ v ∨ t.2.1 ≠ p then decodeVehicle g v k (p + 1) rest prev acc
+      else
+        match prev with
+        | some q =>
+          -- `if prev_node and not check_arc(...)`: a previous node 0 (the depot) is falsy in Python
+          if q ≠ 0 ∧ !g.hasArc q t.2.2 then decodeVehicle g v k (p + 1) rest prev acc
+          else decodeVehicle g v k (p + 1) rest (some t.2.2) (acc ++ [t.2.2])
+        | none => decodeVehicle g v k (p + 1) rest (some t.2.2) (acc ++ [t.2.2])
+
+/-- `get_routes(x)`: `.error .index` when the code would pop from an empty list -/
+def SeqInst.decode (I : SeqInst) (x : List Rat) : Except Err (List (List Nat)) :=
+  let sel := I.selected x
+  if sel.isEmpty then .ok [] else
+  let ts := sortS (sel ++ I.fixedOnes)
+  let rec go (v : Nat) (fuel : Nat) (ts : List STup) (acc : List (List Nat)) : Except Err (List (List Nat)) :=
+    match fuel with
+    | 0 => .ok acc
+    | fuel + 1 =>
+      match decodeVehicle I.g v I.L 0 ts none [] with
+      | none => .error .index
+      | some (ts', r) => go (v + 1) fuel ts' (acc ++ [r])
+  go 0 I.V ts []
+
+end Vrp
